@@ -6,7 +6,7 @@ PROPS["C16"] = P(
     "(max_shard = n when there is one shard), some set up twice (expected then actual number of keys), plus random (n log-uniform to 10^12, eps, max_shard in the accepted interval); "
     "on every reachable set-up: all 36^2 combinations of {0,1,2^31-1,2^31,2^32-2,2^32-1} in each 32-bit half of each word, all-zeros/all-ones/extreme patterns in the shard bits and the bits below them, "
     "all-zeros/all-ones in the two XOR fields, inputs whose fixed-point product is the first/last vertex of the first/last segment (smallest and largest such input, +-1), sort-key boundaries, "
-    "and 2000..10^4 random signatures (also sparse/dense/shifted words); per signature: shard() = top bits = Sig::high_bits, shard < num_shards, the 3 vertices of edge() inside the array and inside "
+    "and 3000..10^5 random signatures (also sparse/dense/shifted words); per signature: shard() = top bits = Sig::high_bits, shard < num_shards, the 3 vertices of edge() inside the array and inside "
     "the shard's slice, pairwise distinct, = local_edge(local_sig()) + shard base, local_edge < num_vertices and distinct, sort_key < num_sort_keys. Set-ups rejected by the documented capacity "
     "assertion of set_up_graphs are counted (notes) and not judged. distinct_nontrivial = distinct tuples of reachable set-ups (variant, shard_high_bits, num_vertices, num_sort_keys) judged in a case",
     dict(builds=["DBG", "UBC"]),
